@@ -22,7 +22,7 @@
     `right` after the whole input).
   * `DqOp`: caller operations on the yielded `deque(maxlen=size)` that CHANGE its length (append,
     appendleft, pop, popleft, clear, extend, del, insert) and the ones that may FAIL (IndexError:
-    pop from an empty deque, index out of range, insert into a full deque): a failed operation
+    pop from an empty deque, index out of range, insert into a full deque), with indices of either sign: a failed operation
     leaves the deque as it was and the history goes on.
 -/
 import ALV.Model.C08
@@ -280,6 +280,18 @@ inductive DqOp (α : Type) where
   | extend (vs : List α)
   | del (i : Nat)              -- del blk[i]
   | insert (i : Nat) (v : α)   -- blk.insert(i, v)
+  | setI (i : Int) (v : α)     -- blk[i] = v      with any int index (negative: from the end)
+  | delI (i : Int)             -- del blk[i]      with any int index
+  | insertI (i : Int) (v : α)  -- blk.insert(i, v) with any int index
+
+/-- Python's reading of an index into a sequence of `len` items: `-len ≤ i < len`, a negative one counts from the end;
+`none` = IndexError -/
+def normIdx (i : Int) (len : Nat) : Option Nat :=
+  if 0 ≤ i then (if i.toNat < len then some i.toNat else none)
+  else if -(len : Int) ≤ i then some (i + len).toNat else none
+
+/-- where `insert(i, v)` puts the item: a negative index counts from the end and is cut at 0 -/
+def insPos (i : Int) (len : Nat) : Nat := if 0 ≤ i then i.toNat else (i + len).toNat
 
 /-- `none` = the operation raises IndexError and leaves the deque as it was -/
 def DqOp.apply (size : Nat) : DqOp α → List α → Option (List α)
@@ -293,6 +305,10 @@ def DqOp.apply (size : Nat) : DqOp α → List α → Option (List α)
   | .extend vs, l => some (vs.foldl (dqPush size) l)
   | .del i, l => if i < l.length then some (l.eraseIdx i) else none
   | .insert i v, l => if size ≤ l.length then none else some (l.take i ++ v :: l.drop i)
+  | .setI i v, l => (normIdx i l.length).map fun k => l.set k v
+  | .delI i, l => (normIdx i l.length).map fun k => l.eraseIdx k
+  | .insertI i v, l =>
+    if size ≤ l.length then none else some (l.take (insPos i l.length) ++ v :: l.drop (insPos i l.length))
 
 /-- a sequence of operations; a failed one leaves no trace -/
 def applyOps (size : Nat) (ops : List (DqOp α)) (l : List α) : List α :=
